@@ -8,7 +8,10 @@ life cycle).  Binding:
      orders) -> bytes and names equal the spec's rendering / hashlib; from_string -> fields equal;
      every one-field edit inside the space -> bytes/names equal the spec's edited case.  Tree codec
      in both implementations (pure Python, freshly built Rust).
-  R  every transition of the ObjFile state graph replayed on real Blob/Tree/Commit/Tag objects.
+  R  every transition of the ObjFile state graph replayed on real Blob/Tree/Commit/Tag objects: setters,
+     .id, explicit get_id(F)/sha(F) for both formats on objects whose cached name is fixed in either
+     format (before and after edits), copy, check, reload; plus the store-level form (DiskObjectStore
+     of format A -> lookup -> names in both formats -> store of format B -> lookup), all four (A, B).
   T  random/hypothesis objects and git-made objects judged by TLC (ObjGrammarTrace), random long
      life-cycle histories judged by TLC (ObjFileTrace).
   G  C git as third party: hash-object names, fsck --strict, cat-file; mktree/commit-tree/mktag
@@ -160,7 +163,7 @@ def phase_grammar(ctx, only=None, edits=True):
     box = {}
 
     def edits_run():
-        box["res"] = tlc.run("ObjGrammar.tla", ecfg, workers=ctx.pick(4, 6), timeout=ctx.pick(300, 1500))
+        box["res"] = tlc.run("ObjGrammar.tla", ecfg, workers=ctx.pick(4, 8), timeout=ctx.pick(300, 1500))
     th = threading.Thread(target=edits_run)
     if edits:
         th.start()
@@ -312,7 +315,7 @@ def phase_life(ctx, objfile):
         res = runs[name]
         ctx.add_tlc(f"ObjFile[{os.path.basename(cfg)}]" + (" invariants TypeOK IdIsHash SerCurrent CacheCoherent" if cfg != keeps else " (shape of the defect model, no invariants)"), res)
         g = tlc.load_dot(dot)
-        paths, total, covered = plan_paths(ctx, g, budget, ext=ctx.pick(6, 4))
+        paths, total, covered = plan_paths(ctx, g, budget, ext=ctx.pick(6, 3))
         used = {i for (i, _) in paths} | {t for (_, st) in paths for (_, t) in st}
         plans[name] = {"nodes": {str(i): tlc.tlaval.to_py(g.nodes[i]) for i in used}, "paths": paths}
         ctx.cov.setdefault("life", {})[name] = {"states": len(g.nodes), "transitions": total, "behaviours": len(paths),
@@ -339,7 +342,7 @@ def phase_life(ctx, objfile):
         modes = ["py", "rs"] if c["kind"] == "tree" else ["py"]
         for m in modes:
             jobs.append({"task": "life", "mode": m, "dump": ctx.dump, "pools": ctx.poolf, "paths": pf, "concs": [c],
-                         "histories": ctx.pick(30, 1500), "history_len": ctx.pick(16, 24)})
+                         "histories": ctx.pick(30, 1000), "history_len": ctx.pick(16, 24)})
     jobs.append({"task": "life", "mode": "py", "dump": ctx.dump, "pools": ctx.poolf, "store": True, "tmp": ctx.tmpdir("st")})
     results = spawn(ctx, jobs, "life")
     tot = {}
@@ -464,7 +467,7 @@ def phase_life_traces(ctx, traces):
 def phase_fuzz(ctx):
     d = ctx.tmpdir("fz")
     n_py, n_rs = ctx.pick(3, 12), ctx.pick(1, 3)
-    per = ctx.pick(500, 6000)
+    per = ctx.pick(500, 5000)
     jobs = [{"task": "fuzz", "mode": "py", "shard": i, "count": per, "traces": os.path.join(d, f"py{i}.ndjson")} for i in range(n_py)]
     jobs += [{"task": "fuzz", "mode": "rs", "shard": 100 + i, "count": per, "traces": os.path.join(d, f"rs{i}.ndjson")} for i in range(n_rs)]
     results = spawn(ctx, jobs, "fuzz")
@@ -793,8 +796,9 @@ def run(ctx):
         "message does not contain a signature armour line, embedded mergetags end with LF",
         "message None and message b'' are the same object for an object built through the API (both serialise to the blank line "
         "only); only a parsed object can lack the blank line",
-        "in a sha256 repository an object is named by get_id(SHA256); .id is accepted as either the SHA-1 or (when the object was "
-        "loaded with its sha256 name) the SHA-256 of the current content",
+        "an explicit request get_id(F)/sha(F) must return the hash of the current content in format F whatever name is cached "
+        "(IdIsHash per requested format); only the format-less .id / sha() is accepted as either the SHA-1 or -- for an object that "
+        "carries the name a sha256 store gave it -- the SHA-256 of the current content",
         "git is compared on the objects it accepts: `git fsck --strict` rejects exactly the cases ObjGrammar!GitStrictOK predicts "
         "(negative timestamps); commit-tree/tag/mktree cannot produce mergetag or unknown extra headers, those are compared "
         "through hash-object and fsck only",
@@ -847,7 +851,7 @@ def replay(ctx, path):
             print("REPRODUCED", json.dumps(x))
         return 1 if hits else 0
     if phase == "fuzz":
-        job = obj.get("job") or {"mode": f.get("mode", "py"), "shard": f.get("shard", 0), "count": ctx.pick(500, 6000)}
+        job = obj.get("job") or {"mode": f.get("mode", "py"), "shard": f.get("shard", 0), "count": ctx.pick(500, 5000)}
         d = ctx.tmpdir("fz")
         job = dict(job, task="fuzz", traces=os.path.join(d, "t.ndjson"))
         r = spawn(ctx, [job], "replay")[0]
